@@ -98,7 +98,11 @@ type Proc struct {
 }
 
 func NewProc(id int) *Proc {
-	return &Proc{ID: id, StepBudget: defaultStepBudget, Raised: map[string]interface{}{}}
+	p := &Proc{ID: id, StepBudget: defaultStepBudget, Raised: map[string]interface{}{}}
+	if liftBudgets {
+		p.StepBudget = 1 << 62
+	}
+	return p
 }
 
 const defaultStepBudget = 2_000_000
@@ -205,7 +209,7 @@ func pointHook(site string) {
 	if p.Steps > p.StepBudget {
 		panic(&budgetSentinel{"steps"})
 	}
-	if p.Steps&1023 == 0 {
+	if p.Steps&1023 == 0 && !liftBudgets {
 		if runtime.Callers(depthBudget, depthScratch) > 0 {
 			panic(&budgetSentinel{"depth"})
 		}
